@@ -375,6 +375,8 @@ var subShake = ev.Register("cert-handshake",
 		o.Class("host:" + hostKind(c.HostPort))
 		o.NonTrivial = hostKind(c.HostPort) != "dns"
 		var first []byte
+		expired := false
+		before := map[string]bool{} // leaves presented before the injected expiry
 		ca, _, _ := px.TestCA()
 		for i := 0; i < c.Repeat; i++ {
 			if c.ExpireBefore > 0 && i == c.ExpireBefore {
@@ -383,6 +385,7 @@ var subShake = ev.Register("cert-handshake",
 					return ev.Failf("cert.harness", "expire: %v", err)
 				}
 				first = nil
+				expired = true
 				o.Class("expired-between-tunnels")
 			}
 			tun, err := env.Connect(c.HostPort)
@@ -397,6 +400,13 @@ var subShake = ev.Register("cert-handshake",
 			tun.Close()
 			if leaf == nil {
 				return ev.Failf("cert.handshake-no-leaf", "CONNECT %s: no peer certificate", c.HostPort)
+			}
+			// the hook stands for time passing beyond the certificate lifetime: whatever was presented before it
+			// has expired with it, so a tunnel opened afterwards must be presented a certificate issued since
+			if !expired {
+				before[string(leaf.Raw)] = true
+			} else if before[string(leaf.Raw)] {
+				return ev.Failf("cert.expired-served:handshake", "CONNECT %s: the host's certificate expired (%d s ago) between tunnel %d and tunnel %d, but tunnel %d was presented the very certificate of the earlier tunnel again (serial %s)", c.HostPort, c.AgoS, c.ExpireBefore-1, c.ExpireBefore, i, leaf.SerialNumber)
 			}
 			if first == nil {
 				first = leaf.Raw
